@@ -77,7 +77,7 @@ REQUIRED_REACH = ["two-workers-alive-at-once", "empty-chunk:more-threads-than-pa
                   "store-gate-used", "yield-injected", "rectangular-local-block", "complex-dtype",
                   "schedule-realised", "nthreads=1", "nthreads=pairs+2", "workers-spawned:decorator",
                   "workers-spawned:numpy-int", "one-form-object-many-bases",
-                  "local-function-zero-value-nonzero-gradient"]
+                  "local-function-zero-value-nonzero-gradient", "slow-integrand"]
 
 
 # --------------------------------------------------------------------------- integrands
@@ -852,6 +852,31 @@ def fam_reuse(ctx, k):
     ctx.nontrivial("reuse", kind, formname, nth, tuple(int(i) for i in order))
 
 
+def fam_slow(ctx, k):
+    """A slow integrand (0.5 s per call: a coefficient read from disk, a table look-up): the caller gets the matrix
+    only after every worker has finished, however long that takes ("join before flatten")."""
+    import time
+    import skfem
+    rng = ctx.rng()
+    mc = G.line_mesh(rng, n=3)
+    ub = skfem.CellBasis(mc.mesh, _elem("ElementLineP2()"))
+    raw = make_form("mass-x", 1)
+
+    def slow(*args):
+        time.sleep(0.5)
+        return raw(*args)
+    S = skfem.BilinearForm(raw, nthreads=0).assemble(ub)
+    t0 = time.time()
+    A = skfem.BilinearForm(slow, nthreads=2).assemble(ub)            # 9 pairs: 5 and 4 calls per worker
+    wall = time.time() - t0
+    ctx.check("workers-joined-before-return", _bytes_equal(A.toarray(), S.toarray()),
+              mech="assemble-returned-before-slow-workers-finished", wall_s=round(wall, 2), pairs=9, nthreads=2,
+              missing=lambda: int((A.toarray() != S.toarray()).sum()))
+    ctx.reached("slow-integrand")
+    ctx.notes["slow-integrand-wall-s"] = round(wall, 2)
+    ctx.nontrivial("slow", 2)
+
+
 _enum_kernel = fam_enum(False)
 _enum_fine = fam_enum(True)
 
@@ -864,6 +889,7 @@ FAMILIES = [
     Family("sweep-threadcounts", fam_sweep, quick=36, thorough=680, budget={"quick": 30, "thorough": 420}),
     Family("stress-yield", fam_stress, quick=16, thorough=480, budget={"quick": 30, "thorough": 420}),
     Family("reuse-form-object", fam_reuse, quick=24, thorough=480, budget={"quick": 30, "thorough": 300}),
+    Family("slow-integrand", fam_slow, quick=1, thorough=2, budget={"quick": 30, "thorough": 60}),
     Family("observe-integrand-exception", fam_observe, quick=1, thorough=1),
 ]
 
